@@ -336,7 +336,7 @@ def classify_(f, args, exp, got, other_config_agrees=None, config='default'):
     gt, gty, gv = parse_out(got)
     cell = '%s**%s:cpow=%s' % (f['bc'], f['ec'], f['cpow'])
     if gt.startswith('type:'):
-        return 'cpow-type:%s:expected-%s-got-%s' % (cell, meta['expect'], powcases.type_class(gt[5:]))
+        return 'cpow-type:%s:expected-%s-got-%s' % (cell, meta['expect'], powcases.type_class(gt[5:].replace('~', ' ')))
     base = args[0] if not f['base'].startswith('const:') else f['constbase']
     e = meta['const'] if meta['const'] is not None else (float(f['etext']) if f['ekind'] == 'fconst' else args[-1])
     if meta['expect'] in ('double', 'floating') or f.get('typeof') in powcases.FLOATING:
